@@ -141,7 +141,10 @@ def gen : PyExpr → List Tok
   | .subscript v (.slice l u st) =>
       gen v ++ tLB :: (genOpt [] l ++ tColon :: (genOpt [] u ++ genOpt [tColon] st) ++ [tRB])
   | .subscript v s => gen v ++ tLB :: (gen s ++ [tRB])
-  | .slice _ _ _ => []            -- no `visit_Slice`: raises (see `genOk`)
+  | .slice l u st =>
+      -- only written by `visit_Subscript` (`_process_slice`); on its own there is no
+      -- `visit_Slice` and the generator raises (see `genOk`)
+      genOpt [] l ++ tColon :: (genOpt [] u ++ genOpt [tColon] st)
   | .starred e => tStar :: gen e
   | .list elts => tLB :: (genList [] [tComma] elts ++ [tRB])
   | .tuple elts => tLP :: (genList [] [tComma] elts ++ [tRP])
@@ -170,6 +173,10 @@ def genParams (po ar : List PyExpr) (va : Option PyExpr) (ko : List PyExpr) (ka 
 
 def hasVisitor (k : Str) : Bool := AstGen.visitors.contains k
 
+def isSlice : PyExpr → Bool
+  | .slice _ _ _ => true
+  | _ => false
+
 mutual
 /-- `false` iff the real generator raises on this tree -/
 def genOk : PyExpr → Bool
@@ -190,13 +197,13 @@ def genOk : PyExpr → Bool
   | .compare l rest => hasVisitor cs!"Compare" && genOk l && genOkList rest
   | .call f args kws => hasVisitor cs!"Call" && genOk f && genOkList args && genOkList kws
   | .attribute v _ => hasVisitor cs!"Attribute" && genOk v
-  | .subscript v (.slice l u st) =>
-      hasVisitor cs!"Subscript" && genOk v && genOkOpt l && genOkOpt u && genOkOpt st
   | .subscript v s => hasVisitor cs!"Subscript" && genOk v && genOk s
-  | .slice _ _ _ => hasVisitor cs!"Slice"
+  -- a slice is written by `visit_Subscript` itself; anywhere else (in practice: inside the tuple
+  -- of an extended subscript `x[a:b, c]`) there is no `visit_Slice` and the generator raises
+  | .slice l u st => genOkOpt l && genOkOpt u && genOkOpt st
   | .starred e => hasVisitor cs!"Starred" && genOk e
   | .list elts => hasVisitor cs!"List" && genOkList elts
-  | .tuple elts => hasVisitor cs!"Tuple" && genOkList elts
+  | .tuple elts => hasVisitor cs!"Tuple" && genOkList elts && (hasVisitor cs!"Slice" || !elts.any isSlice)
   | .unsupported k => hasVisitor k
   | .keyword _ v => genOk v
   | .comp t it ifs _ => genOk t && genOk it && genOkList ifs
